@@ -5,6 +5,8 @@
      conv <rows> <cols> cells.. <krows> <kcols> weights..              -> cells
      hot <rows> <cols> z..                                             -> ints
      hotspots <rows> <cols> cells.. <krows> <kcols> weights..          -> ints | ZERODIV
+     fapply/fstats/fmean/fconv/fhot/fhotspots/fglobal: the same kernels at the FLOAT instance
+       (binary32 = SpecFloat, binary64 = PrimFloat); values are C99 hex floats, nan, inf, -inf
      ck <is_ndarray 0|1> <rows> <cols>                                 -> ok | reject
      defaults                                                          -> default stats_funcs, default apply func
    cells: nan | n | n/d (exact rationals).  x ** 0.5 is the external function of the model; here it is the
@@ -67,43 +69,52 @@ let func_of_name (s : Stdlib.String.t) : xq grid -> xq =
   | "u_range" -> u_range | "u_count" -> u_count | "u_nnan" -> u_nnan
   | "u_first" -> u_first | "u_idxsum" -> u_idxsum
   | _ -> (match prim_of_name s with
-          | Some p -> reducer_of qsqrt p
+          | Some p -> q_reducer qsqrt p
           | None -> failwith ("unknown func " ^ s))
 
-let zero_q = { qnum = Z0; qden = XH }
+(* exact kernels are arrays of rationals as well (a kernel entry could be NaN in the generic model) *)
+let next_kq r = Some (next_q r)
+
+(* ---- float instance: values cross as C99 hex floats / nan / inf / -inf ---- *)
+let fl (s : Stdlib.String.t) = Float64.of_float (float_of_string s)
+let next_fl r = fl (next r)
+let str_f x =
+  let v = Float64.to_float x in
+  if Float.is_nan v then "nan" else Printf.sprintf "%h" v
+let str_fgrid g = String.concat " " (List.map (fun row -> String.concat " " (List.map str_f row)) g)
 
 let () = main_loop (fun op r ->
   match op with
   | "apply" ->
     let f = func_of_name (next r) in
     let data = next_grid r next_xq in
-    let kernel = next_grid r next_q in
-    (match focal_apply None (Some zero_q) zero_q is_one_q f data kernel with
+    let kernel = next_grid r next_kq in
+    (match q_apply f data kernel with
      | Some g -> string_of_grid string_of_xq g
      | None -> "REJECT")
   | "stats" ->
     let names = next_list r (fun r -> stat_of_name (next r)) in
     let data = next_grid r next_xq in
-    let kernel = next_grid r next_q in
-    (match focal_stats qsqrt data kernel names with
+    let kernel = next_grid r next_kq in
+    (match q_stats qsqrt data kernel names with
      | Some layers -> String.concat " " (List.map (string_of_grid string_of_xq) layers)
      | None -> "REJECT")
   | "mean" ->
     let passes = next_z r in
     let excludes = next_list r next_xq in
     let data = next_grid r next_xq in
-    string_of_grid string_of_xq (mean data passes excludes)
+    string_of_grid string_of_xq (q_mean data passes excludes)
   | "conv" ->
     let data = next_grid r next_xq in
-    let kernel = next_grid r next_q in
-    string_of_grid string_of_xq (convolve_2d data kernel)
+    let kernel = next_grid r next_kq in
+    string_of_grid string_of_xq (q_conv data kernel)
   | "hot" ->
     let z = next_grid r next_xq in
-    string_of_grid string_of_z (calc_hotspots z)
+    string_of_grid string_of_z (q_hot z)
   | "hotspots" ->
     let data = next_grid r next_xq in
-    let kernel = next_grid r next_q in
-    (match hotspots_numpy qsqrt data kernel with
+    let kernel = next_grid r next_kq in
+    (match q_hotspots qsqrt data kernel with
      | Some g -> string_of_grid string_of_z g
      | None -> "ZERODIV")
   | "ck" ->
@@ -113,4 +124,38 @@ let () = main_loop (fun op r ->
     if custom_kernel_ok (nd <> 0) rows cols then "ok" else "reject"
   | "defaults" ->
     string_of_list name_of_stat default_stats_funcs ^ " | " ^ name_of_prim apply_default_func
+  (* ---- float instance ---- *)
+  | "fapply" ->
+    let p = (match prim_of_name (next r) with Some p -> p | None -> failwith "unknown func") in
+    let data = next_grid r next_fl in
+    let kernel = next_grid r next_fl in
+    (match f_apply p data kernel with Some g -> str_fgrid g | None -> "REJECT")
+  | "fstats" ->
+    let names = next_list r (fun r -> stat_of_name (next r)) in
+    let data = next_grid r next_fl in
+    let kernel = next_grid r next_fl in
+    (match f_stats data kernel names with
+     | Some layers -> String.concat " " (List.map str_fgrid layers)
+     | None -> "REJECT")
+  | "fmean" ->
+    let passes = next_z r in
+    let excludes = next_list r next_fl in
+    let data = next_grid r next_fl in
+    str_fgrid (f_mean data passes excludes)
+  | "fconv" ->
+    let data = next_grid r next_fl in
+    let kernel = next_grid r next_fl in
+    str_fgrid (f_conv data kernel)
+  | "fhot" ->
+    let z = next_grid r next_fl in
+    string_of_grid string_of_z (f_hot z)
+  | "fhotspots" ->
+    let data = next_grid r next_fl in
+    let kernel = next_grid r next_fl in
+    (match f_hotspots data kernel with
+     | Some g -> string_of_grid string_of_z g
+     | None -> "ZERODIV")
+  | "fglobal" ->
+    let data = next_grid r next_fl in
+    let (m, s) = f_global data in str_f m ^ " " ^ str_f s
   | _ -> "ERR unknown-op " ^ op)
